@@ -153,8 +153,15 @@ func matchFact(fact, needle string) bool {
 }
 
 func checkC19(c *Ctx) {
+	c.R.Explanation = c19Explanation
+	c19Rules(c)
+}
+
+const c19Explanation = "Decides on the SSA of pkg/engine/runtimev2/funcs.go: (1) DEAD-GUARD: every local container or flag that a rejection test of CheckFnParamDef/CheckPassParam reads is also written on the accepting path (a map that is looked up but never updated makes its rejection dead); (2) REJECTS: for each rejection the property lists — invalid name, duplicate name, required after optional, variadic with optional / twice / not last (definition); named together with variadic, non-identifier name, unknown name, duplicate binding, positional after named, missing required, more positional arguments than parameters without a variadic tail (call) — there is a return of a non-nil error whose dominating branch conditions have exactly that shape; (3) PLACEMENT: the positional store writes slot = position in the call, the named store writes the slot of the parameter whose name matched, the surplus test dominates the positional store, and ParamNormalized receives the bound slots on success; (4) GETTERS: GetParam evaluates the declared default only when the slot is nil, the variadic tail ranges ParamNormalized[i:] in order, typed getters use checked assertions. Not decided: the binding function as a whole for all (signature, call) pairs (value-level)."
+
+// c19Rules: the rules on the v2 argument-shape helpers (shared with C08, whose load-time acceptance rests on them).
+func c19Rules(c *Ctx) {
 	r, t := c.R, c.T
-	r.Explanation = "Decides on the SSA of pkg/engine/runtimev2/funcs.go: (1) DEAD-GUARD: every local container or flag that a rejection test of CheckFnParamDef/CheckPassParam reads is also written on the accepting path (a map that is looked up but never updated makes its rejection dead); (2) REJECTS: for each rejection the property lists — invalid name, duplicate name, required after optional, variadic with optional / twice / not last (definition); named together with variadic, non-identifier name, unknown name, duplicate binding, positional after named, missing required, more positional arguments than parameters without a variadic tail (call) — there is a return of a non-nil error whose dominating branch conditions have exactly that shape; (3) PLACEMENT: the positional store writes slot = position in the call, the named store writes the slot of the parameter whose name matched, the surplus test dominates the positional store, and ParamNormalized receives the bound slots on success; (4) GETTERS: GetParam evaluates the declared default only when the slot is nil, the variadic tail ranges ParamNormalized[i:] in order, typed getters use checked assertions. Not decided: the binding function as a whole for all (signature, call) pairs (value-level)."
 	def := t.Func(pRT2, "CheckFnParamDef")
 	pass := t.Func(pRT2, "CheckPassParam")
 	getp := t.Func(pRT2, "GetParam")
